@@ -228,3 +228,12 @@ def typestrs_arg(obj, what="type"):
         ks.append(arg_string(k, what))
         vs.append(arg_string(v, what))
     return ks, vs
+
+
+def no_pickle(cls):
+    """pybind11 classes without py::pickle cannot be pickled or copied with the copy module; the stand-in objects
+    hold a raw bridge handle, so the default slot-based reduction must never run"""
+    def __reduce_ex__(self, protocol):
+        raise TypeError("cannot pickle '%s.%s' object" % (type(self).__module__, type(self).__name__))
+    cls.__reduce_ex__ = __reduce_ex__
+    return cls
